@@ -87,7 +87,7 @@ def check_roots(chk, out, ident):
 
 def run(chk):
     dump = chk.scratch.file("lre.dump")
-    r = tlc.must_pass(tlc.run("LinearREMC", "LinearREMC.cfg", chk.scratch, dump=dump, timeout=1800), "LinearREMC")
+    r = tlc.must_pass(tlc.run("LinearREMC", "LinearREMC.thorough.cfg" if chk.tier == "thorough" else "LinearREMC.cfg", chk.scratch, dump=dump, timeout=3600), "LinearREMC")
     chk.add_tlc(r, "LinearREMC")
     n = 0
     seen_models = {}
